@@ -625,6 +625,26 @@ def run_flextail(prog, ctx=None):
                 subs = []
                 for t in tails:
                     for d in defs.get(t, []):
+                        # the tail is computed by a file-local helper: its returns
+                        rhs = strip(d["b"], all_casts=True) if isinstance(d.get("b"), dict) else {}
+                        if rhs.get("k") == "call":
+                            for g in prog.resolve_call(f, rhs):
+                                if g.nocfg or g.file != f.file:
+                                    continue
+                                for b3, i3, e3 in g.elements():
+                                    if e3.get("k") == "ret" and e3.get("e") is not None:
+                                        for m in walk(e3["e"]):
+                                            if m.get("k") == "bin" and m.get("op") == "-":
+                                                for q in walk(m["b"]):
+                                                    if q.get("k") == "sizeof":
+                                                        subs.append((q, d))
+                                                    if q.get("k") == "ref" and "id" in q["d"]:
+                                                        # a local of the helper that holds the sizeof
+                                                        for b4, i4, n4 in g.walk_all():
+                                                            if n4.get("k") == "decl":
+                                                                for v4 in n4["vars"]:
+                                                                    if v4["id"] == q["d"]["id"] and v4.get("init") is not None and cval(v4["init"]) is not None:
+                                                                        subs.append(({"k": "sizeof", "v": cval(v4["init"]), "l": n4.get("l")}, d))
                         if d.get("op") == "-=":
                             for m in walk(d["b"]):
                                 if m.get("k") == "sizeof":
